@@ -1,9 +1,11 @@
 #!/bin/bash
 # Builds the framework offline from files on disk only.
-set -eu
+set -u
 export CARGO_NET_OFFLINE=true
 HERE="$(cd "$(dirname "$0")" && pwd)"
 mkdir -p "$HERE/out" "$HERE/evidence"
-cd "$HERE/harness"
-cargo build --release --offline 2>&1 | tail -3
+cd "$HERE/harness" || exit 2
+cargo build --release --offline 2>&1 | tail -2 || exit 2
+# libFuzzer target for C13 (dev profile = what the quick tier uses); failure here is reported by the check itself
+(cd "$HERE/harness/fuzz" && RUSTFLAGS="--cfg gdsl_verif" cargo +nightly fuzz build --dev deser 2>&1 | tail -2) || echo "note: fuzz target not built"
 echo "setup done"
